@@ -17,9 +17,12 @@ type Scenario struct {
 	// ... or a stored session to resume
 	Resume *Resume `json:"resume,omitempty"`
 	// what to do after the connection is up
-	Probe   bool         `json:"probe,omitempty"`
-	RPC     *RPCSpec     `json:"rpc,omitempty"`
-	Methods *MethodsSpec `json:"methods,omitempty"`
+	Probe bool `json:"probe,omitempty"`
+	// Aftermath: what the server, which considers the key established, sends after a key exchange the client aborted at
+	// its last step: "new-session", "bad-salt", "update" ("" = nothing)
+	Aftermath string       `json:"aftermath,omitempty"`
+	RPC       *RPCSpec     `json:"rpc,omitempty"`
+	Methods   *MethodsSpec `json:"methods,omitempty"`
 	// C19: seed the process-global math/rand right before connecting (after the client object exists)
 	ReseedGlobal *int64 `json:"reseed_global,omitempty"`
 	// scheduling
